@@ -511,6 +511,8 @@ def list_method(I, lst, name):
 
     table = dict(append=append, extend=extend, pop=pop, insert=insert, remove=remove, index=index, copy=copy_, reverse=reverse, clear=clear, count=count, sort=sort)
     if name not in table:
+        if not hasattr(list, name):
+            I.raise_("AttributeError", name)  # e.g. getattr(a_list, "_needsLazyEval", False)
         raise PyvcError(f"list.{name} not modelled")
     return BuiltinFn("list." + name, table[name])
 
@@ -597,6 +599,8 @@ def dict_method(I, d, name):
 
     table = dict(get=get, items=items, keys=keys, values=values, pop=pop, setdefault=setdefault, update=update, copy=copy_, clear=clear)
     if name not in table:
+        if not hasattr(dict, name):
+            I.raise_("AttributeError", name)  # e.g. getattr(a_dict, "_needsLazyEval", False)
         raise PyvcError(f"dict.{name} not modelled")
     return BuiltinFn("dict." + name, table[name])
 
@@ -699,6 +703,8 @@ def set_method(I, s, name):
 
     table = dict(add=add, update=update, discard=discard, remove=remove, union=union, copy=copy_, isdisjoint=isdisjoint, issubset=issubset, difference=difference, intersection=intersection, clear=clear, pop=pop)
     if name not in table:
+        if not hasattr(set, name):
+            I.raise_("AttributeError", name)  # e.g. getattr(a_set, "_needsLazyEval", False)
         raise PyvcError(f"set.{name} not modelled")
     return BuiltinFn("set." + name, table[name])
 
@@ -1355,14 +1361,23 @@ def havoc_like(I, cur, name):
 # generators (minimal: drained eagerly when iterated)
 
 
+_IS_GENERATOR_CACHE = {}  # id(node) -> (node, bool); a pure function of the AST node
+
+
 def is_generator(node):
     if isinstance(node, ast.Lambda):
         return False
+    cached = _IS_GENERATOR_CACHE.get(id(node))
+    if cached is not None and cached[0] is node:
+        return cached[1]
+    r = False
     for n in ast.walk(node):
         if isinstance(n, (ast.Yield, ast.YieldFrom)):
             # make sure it is not inside a nested def
-            return _own_yield(node)
-    return False
+            r = _own_yield(node)
+            break
+    _IS_GENERATOR_CACHE[id(node)] = (node, r)
+    return r
 
 
 def _own_yield(fn):
